@@ -182,8 +182,9 @@ PROPS = {
         "title": "for_each / enumerate_for_each / fold",
         "rules": [r_fwd.rule_each, r_ovf.rule_zero, r_ovf.rule_ovf, r_m1.rule_one, r_ticket.rule_ord, r_fwd.rule_wrap,
                   r_m1.rule_endguard, r_m1.rule_nonempty, r_m1.rule_complete, r_m1.rule_prov, r_m1.rule_amt,
-                  r_fwd.rule_fwd],
-        "explanation": "EACH: the three trait defaults pass their arguments unchanged to the algorithms and no implementor "
+                  r_fwd.rule_fwd, r_state.rule_done],
+        "explanation": "DONE (the sequence the algorithms visit ends where the wrapped iterator first returned None: flag set on "
+                       "evidence only, on every path after a None, and before the ticket is handed on); EACH: the three trait defaults pass their arguments unchanged to the algorithms and no implementor "
                        "overrides them; in each algorithm chunk_size > 0 is asserted first (ZERO.a); the single-pull loop and "
                        "the buffered loop exit only on the None of the pull made in that iteration; every Some payload reaches "
                        "exactly one call of the user's function on every path (directly, via Iterator::for_each, or an inner "
